@@ -317,6 +317,83 @@ Proof.
   rewrite (app_assoc pre (segments K s) r), (app_assoc pre (segments K s) (segmented_basis K r)).
   apply IH. rewrite <- app_assoc. now apply basis_ok_segmented.
 Qed.
+
+(* ---- kinetic_energy_integral: the same through the generic theorem ---- *)
+Definition kinE (a b : shell F) (m q m' q' : nat) : F :=
+  AssembledSphOverlapP.dsum K a b q q' (fun c c' =>
+    ncont K a m c * ncont K b m' c'
+    * contracted K a b (nth c (comps_of a) (0,0,0)%nat) (nth c' (comps_of b) (0,0,0)%nat) m m'
+        (kin_prim K a b (nth c (comps_of a) (0,0,0)%nat) (nth c' (comps_of b) (0,0,0)%nat))).
+
+Lemma kinE_col_l a b m q m' q' : (m < nseg a)%nat -> kinE (col_shell K a m) b 0%nat q m' q' = kinE a b m q m' q'.
+Proof.
+  intros Hm. unfold kinE.
+  change (AssembledSphOverlapP.dsum K (col_shell K a m) b q q') with (AssembledSphOverlapP.dsum K a b q q').
+  apply AssembledSphOverlapP.dsum_ext. intros c c' _ _.
+  rewrite (ncont_col a m c Hm).
+  change (comps_of (col_shell K a m)) with (comps_of a).
+  change (kin_prim K (col_shell K a m) b) with (kin_prim K a b).
+  now rewrite contracted_col_l.
+Qed.
+Lemma kinE_col_r a b m q m' q' : (m' < nseg b)%nat -> kinE a (col_shell K b m') m q 0%nat q' = kinE a b m q m' q'.
+Proof.
+  intros Hm. unfold kinE.
+  change (AssembledSphOverlapP.dsum K a (col_shell K b m') q q') with (AssembledSphOverlapP.dsum K a b q q').
+  apply AssembledSphOverlapP.dsum_ext. intros c c' _ _.
+  rewrite (ncont_col b m' c' Hm).
+  change (comps_of (col_shell K b m')) with (comps_of b).
+  change (kin_prim K a (col_shell K b m')) with (kin_prim K a b).
+  now rewrite contracted_col_r.
+Qed.
+
+Lemma kinetic_mat_ok X : basis_ok X -> mat_ok K (fun Y => kinetic_integral K Y None) kinE X.
+Proof.
+  intros (C & W & E). split.
+  - destruct X as [|x X']; [split; [reflexivity|intros I HI; cbn in HI; lia]|].
+    unfold kinetic_integral.
+    apply (two_symm_mixed_shape K 0 (fadd K) (fmul K) (kinetic_block K) _ C).
+    + intros sa sb _ _. apply (kinetic_block_shape K).
+    + cbn; lia.
+  - intros i j m q m' q' Hi Hj Hm Hq Hm' Hq'.
+    rewrite (kinetic_mixed_is_cart_transformed K Kf Hapx H2 X C W E i j m q m' q' Hi Hj Hm Hq Hm' Hq').
+    unfold kinE. apply AssembledSphOverlapP.dsum_ext. intros c c' Hc Hc'.
+    rewrite (kinetic_integral_entry K Kf Hapx H2 (map to_cart X) i j m c m' c' (cart_basis_to_cart X C)
+               (basis_wf_to_cart X W) (basis_exps_to_cart K X E));
+      rewrite ?map_length, ?sh_at_to_cart; try assumption.
+    reflexivity.
+Qed.
+
+Lemma kinetic_T bs T :
+  kinetic_integral K bs T
+  = match T with None => kinetic_integral K bs None
+    | Some t => lincomb2 0 (fadd K) (fmul K) t t (kinetic_integral K bs None) end.
+Proof. destruct T; reflexivity. Qed.
+
+Theorem kinetic_one_shell_segmented pre post s T :
+  basis_ok (pre ++ s :: post) ->
+  kinetic_integral K (pre ++ segments K s ++ post) T = kinetic_integral K (pre ++ s :: post) T.
+Proof.
+  intros H. rewrite (kinetic_T (pre ++ segments K s ++ post)), (kinetic_T (pre ++ s :: post)).
+  assert (E : kinetic_integral K (pre ++ segments K s ++ post) None = kinetic_integral K (pre ++ s :: post) None).
+  { apply (one_shell_segmented K (fun Y => kinetic_integral K Y None) kinE kinE_col_l kinE_col_r pre post s).
+    - apply (proj1 H). apply in_mid.
+    - now apply kinetic_mat_ok.
+    - apply kinetic_mat_ok. now apply basis_ok_segmented. }
+  now rewrite E.
+Qed.
+
+Theorem kinetic_segmented_basis basis T :
+  basis_ok basis -> kinetic_integral K (segmented_basis K basis) T = kinetic_integral K basis T.
+Proof.
+  intros H. change basis with ([] ++ basis) in H |- * at 2.
+  change (segmented_basis K basis) with ([] ++ segmented_basis K basis).
+  generalize (@nil (shell F)) as pre, H. clear H.
+  induction basis as [|s r IH]; intros pre H; [reflexivity|].
+  unfold segmented_basis. cbn [flat_map]. fold (segmented_basis K r).
+  rewrite <- (kinetic_one_shell_segmented pre r s T H).
+  rewrite (app_assoc pre (segments K s) r), (app_assoc pre (segments K s) (segmented_basis K r)).
+  apply IH. rewrite <- app_assoc. now apply basis_ok_segmented.
+Qed.
 End OverlapSeg.
 
 (* ------------------------------------------------------------------ *)
